@@ -242,13 +242,48 @@ CHECKS['C17'] = {
     'technique': 'Hypothesis-generated histories and XML-RPC storms on a cluster simulator, golden state-gating table',
 }
 
+CHECKS['C13'] = {
+    'engine': 'E1-clustersim',
+    'category': 'exploration',
+    'text': ('Generated cluster episodes with auto_fence, cuts / one-way losses / heals, crashes, restarts, process activity '
+             'and, with some probability, one instance configured with a different strategy. All internal messages really '
+             'exchanged are recorded; generated probes re-inject through the real entry point (sendRemoteCommEvent) '
+             'messages claiming to come from a peer the receiver holds ISOLATED (all publication and notification kinds, '
+             'stale / duplicated, with non-matching origin fields) and process / removal / disability events (also forced) '
+             'claiming a peer not admitted yet. Non-interference oracle on the observable snapshot (all status XML-RPCs '
+             'plus the context process tables; fields unstable without any message are masked) before / after every such '
+             'message, natural or injected; nothing enqueued for a peer after its isolation; ISOLATED never left; a peer '
+             'whose handshake answer reports the local instance ISOLATED or different strategies is never admitted.'),
+    'design_ref': 'DESIGN.md 5/C13',
+    'note': CLUSTER_NOTE,
+    'technique': 'Hypothesis-generated histories on a cluster simulator + generated message injection, metamorphic '
+                 'non-interference oracle on observable snapshots',
+}
+
+CHECKS['C19'] = {
+    'engine': 'E1-clustersim',
+    'category': 'exploration',
+    'text': ('Generated settled clusters (2-6 real instances on 1-3 nodes, background loads, a target application with the '
+             'three distribution rules, identifiers rules, programs known by subsets) in OPERATION. (1) Metamorphic: every '
+             'test_start_application / test_start_process call (also "group:*", repeated, all strategies) is bracketed by '
+             'observable snapshots of the requester (status XML-RPCs, per-instance process information, loads, jobs, Starter / '
+             'Stopper activity) that must be identical, with no request emitted and nothing enqueued, and a repeated '
+             'prediction must answer the same. (2) Differential: the real start_application / start_process is issued from '
+             'the same situation with children starting normally and the targets of its start requests are compared with '
+             'the prediction. One side-effect defect repaired; two root causes of prediction / real divergence are recorded '
+             'as known findings with a diagnosis.'),
+    'design_ref': 'DESIGN.md 5/C19',
+    'note': CLUSTER_NOTE,
+    'technique': 'Hypothesis-generated settled clusters; metamorphic no-side-effect relation + differential against the real start',
+}
+
 HOOK_COMMITS = []
 
 ENGINES = [
     {'name': 'E1-clustersim', 'path': 'clustersim/', 'kind_free_text':
         'deterministic cluster simulator: N real Supvisors instances in one process on a fake OS / network / clock; '
         'Hypothesis generates configuration and history; per-property monitors',
-     'serves_properties': ['C01', 'C02', 'C03', 'C04', 'C07', 'C08', 'C09', 'C10', 'C12', 'C14', 'C16', 'C17']},
+     'serves_properties': ['C01', 'C02', 'C03', 'C04', 'C07', 'C08', 'C09', 'C10', 'C12', 'C13', 'C14', 'C16', 'C17', 'C19']},
     {'name': 'E3-solo', 'path': 'clustersim/solo.py', 'kind_free_text':
         'one real instance with puppet peers / pure component harnesses driven by Hypothesis',
      'serves_properties': ['C11', 'C15', 'C18', 'C20']},
@@ -256,5 +291,4 @@ ENGINES = [
 
 _PENDING = 'check not built yet in this round (the technique applies; see DESIGN.md section 5)'
 NOT_APPLICABLE = {pid: _PENDING for pid in
-                  ['C05', 'C06', 'C13',
-                   'C19']}
+                  ['C05', 'C06']}
